@@ -86,6 +86,37 @@ pub fn check_program(choices: &Vec<u16>, walk_table: bool) -> Out {
         Ok(Err(e)) => return Err(Viol::new("C10:generated-source-rejected", format!("{e}"), cj(""))),
         Ok(Ok(a)) => a,
     };
+    let stack: Vec<u64> = choices.iter().take(12).map(|c| *c as u64).collect();
+    let classes = roundtrip_program_ast(&ast, &src.text, Some(stack))?;
+    let mut forms: Vec<&str> = src.forms_used.clone();
+    forms.sort();
+    forms.dedup();
+    let nontrivial = forms.len() >= 5 || src.nested || src.has_imports;
+    Ok(Info {
+        nontrivial: if nontrivial { Some(fp_str(&src.text)) } else { None },
+        classes,
+        sample: Some(json!({"src": src.text.chars().take(900).collect::<String>(), "distinct_forms": forms.len()})),
+        extra_nontrivial: forms.iter().map(|f| fp_str(f) | 1 << 63).collect(),
+        ..Info::default()
+    })
+}
+
+/// entry point of the `ast_text` fuzz target: arbitrary text; a source the parser rejects is fine,
+/// a panic is not, and whatever parses must survive the same round trips as generated sources
+pub fn check_source(text: &str) -> Result<(), Viol> {
+    let cj = || json!({"kind": "program", "src": text, "detail": "fuzz"});
+    let ast = match vm::catch(|| ProgramAst::parse(text)) {
+        Err(p) => return Err(Viol::new("C10:parse-panic", p, cj())),
+        Ok(Err(_)) => return Ok(()),
+        Ok(Ok(a)) => a,
+    };
+    roundtrip_program_ast(&ast, text, None).map(|_| ())
+}
+
+/// serialise / deserialise (with and without imports, with reloaded source locations), compile
+/// both ASTs, optionally execute both programs
+pub fn roundtrip_program_ast(ast: &ProgramAst, text: &str, exec_stack: Option<Vec<u64>>) -> Result<Vec<String>, Viol> {
+    let cj = |extra: &str| json!({"kind": "program", "src": text, "detail": extra});
     let mut locations = Vec::new();
     ast.write_source_locations(&mut locations);
     let mut decoded_full = None;
@@ -100,7 +131,7 @@ pub fn check_program(choices: &Vec<u16>, walk_table: bool) -> Out {
             return Err(Viol::new("C10:locations-reload", format!("source locations do not reload: {e}"), cj("")));
         }
         let back = if ser_imports { back } else { back.with_import_info(ast.import_info().clone()) };
-        if back != ast {
+        if &back != ast {
             return Err(Viol::new(format!("C10:program-ast-roundtrip:imports={ser_imports}"), "ProgramAst differs after to_bytes/from_bytes (+ reloaded locations)", cj("")));
         }
         // serialising the decoded AST again gives the same bytes
@@ -114,28 +145,29 @@ pub fn check_program(choices: &Vec<u16>, walk_table: bool) -> Out {
     }
     // compile original and round-tripped AST: same root, kernel, call targets; same behaviour
     let back = decoded_full.unwrap();
-    let (p1, p2) = with_asm(|a| (a.compile_ast(&ast).map_err(|e| format!("{e}")), a.compile_ast(&back).map_err(|e| format!("{e}")))).map_err(|e| Viol::new("C10:compile-panic", e, cj("")))?;
+    let (p1, p2) = with_asm(|a| (a.compile_ast(ast).map_err(|e| format!("{e}")), a.compile_ast(&back).map_err(|e| format!("{e}")))).map_err(|e| Viol::new("C10:compile-panic", e, cj("")))?;
     let mut classes = vec!["program".to_string()];
     match (p1, p2) {
         (Ok(p1), Ok(p2)) => {
-            if cb_hashes(&p1, &src.text) != cb_hashes(&p2, &src.text) {
+            if cb_hashes(&p1, text) != cb_hashes(&p2, text) {
                 return Err(Viol::new("C10:recompile-differs", "compiling the round-tripped AST gives another MAST root / kernel / call-target set", cj("")));
             }
-            let stack: Vec<u64> = choices.iter().take(12).map(|c| *c as u64).collect();
-            let case = vm::Case { stack, adv: vec![1, 2, 3, 4, 5, 6, 7, 8], ..vm::Case::default() };
-            let o = |p: &vm_core::Program| match vm::run(p, &case, ExecutionOptions::new(Some(20_000), 64, false).unwrap()) {
-                vm::Ran::Ok(t, _) => format!("ok {:?}", vm::outputs_top_first(&t)),
-                vm::Ran::Err(e, _) => format!("err {}", crate::diff::err_kind(&e)),
-                vm::Ran::Panic(p) => format!("panic {p}"),
-            };
-            let (o1, o2) = (o(&p1), o(&p2));
-            if o1.starts_with("panic") && std::env::var("VERIF_DEBUG").is_ok() {
-                eprintln!("EXECPANIC {}", o1);
+            if let Some(stack) = exec_stack {
+                let case = vm::Case { stack, adv: vec![1, 2, 3, 4, 5, 6, 7, 8], ..vm::Case::default() };
+                let o = |p: &vm_core::Program| match vm::run(p, &case, ExecutionOptions::new(Some(20_000), 64, false).unwrap()) {
+                    vm::Ran::Ok(t, _) => format!("ok {:?}", vm::outputs_top_first(&t)),
+                    vm::Ran::Err(e, _) => format!("err {}", crate::diff::err_kind(&e)),
+                    vm::Ran::Panic(p) => format!("panic {p}"),
+                };
+                let (o1, o2) = (o(&p1), o(&p2));
+                if o1.starts_with("panic") && std::env::var("VERIF_DEBUG").is_ok() {
+                    eprintln!("EXECPANIC {}", o1);
+                }
+                if o1 != o2 {
+                    return Err(Viol::new("C10:execution-differs", format!("{o1} vs {o2}"), cj("")));
+                }
+                classes.push(format!("executes:{}", o1.split(' ').next().unwrap()));
             }
-            if o1 != o2 {
-                return Err(Viol::new("C10:execution-differs", format!("{o1} vs {o2}"), cj("")));
-            }
-            classes.push(format!("executes:{}", o1.split(' ').next().unwrap()));
         }
         (Err(e1), Err(e2)) => {
             if e1 != e2 {
@@ -148,17 +180,7 @@ pub fn check_program(choices: &Vec<u16>, walk_table: bool) -> Out {
         }
         (a, b) => return Err(Viol::new("C10:compile-outcome-differs", format!("original: {:?}, round-tripped: {:?}", a.map(|_| ()), b.map(|_| ())), cj(""))),
     }
-    let mut forms: Vec<&str> = src.forms_used.clone();
-    forms.sort();
-    forms.dedup();
-    let nontrivial = forms.len() >= 5 || src.nested || src.has_imports;
-    Ok(Info {
-        nontrivial: if nontrivial { Some(fp_str(&src.text)) } else { None },
-        classes,
-        sample: Some(json!({"src": src.text.chars().take(900).collect::<String>(), "distinct_forms": forms.len()})),
-        extra_nontrivial: forms.iter().map(|f| fp_str(f) | 1 << 63).collect(),
-        ..Info::default()
-    })
+    Ok(classes)
 }
 
 pub fn check_module(choices: &Vec<u16>) -> Out {
